@@ -159,6 +159,8 @@ def run(chk: core.Check):
     rnd = random.Random(chk.seed + 17)
     base = ["author", "title", "year", "note", "url", "doi"]
     variants = [f(b) for b in base for f in (str.lower, str.upper, str.title, lambda s: s[:-1] + s[-1].upper())]
+    # keys whose lower() differs from casefold() or from upper().lower(): "lower-case" means str.lower, nothing else
+    variants += ["straße", "strasse", "STRASSE", "Straße", "ſ", "s", "S", "ΛΌΓΟΣ", "λόγος", "λόγοσ", "ǅ", "ǆ", "ﬁ", "fi"] * 2
     ncases = 400 if chk.tier == "quick" else 6000
     cases, raw = [], {}
     for cid in range(ncases):
